@@ -11,7 +11,7 @@ use crate::common::*;
 use crate::dd::Cdd;
 use crate::inputs::{self, InClass};
 use crate::out::J;
-use crate::refdft::{impulse_dft, Dir, RefFft};
+use crate::refdft::{impulse_dft, RefFft};
 use crate::rng::{mix, Rng};
 use crate::stats::Stats;
 use crate::Args;
@@ -269,14 +269,14 @@ fn check_type<T: Elem>(cfg: &Cfg, st: &mut Stats, n: usize, reff: &RefFft, seed:
                             ],
                         );
                     }
-                    st.sample(3, || {
+                    if n >= 16 && inp.impulse.is_none() { st.sample(3, || {
                         J::obj(vec![
                             ("case", J::s(&case)),
                             ("rel_l2_error", J::Num(e.rel_l2)),
                             ("bound_B", J::Num(b)),
                             ("plan", J::s(&text)),
                         ])
-                    });
+                    }); }
                 }
             }
             st.set_distinct(&format!("{}|{}|{}", pk.name(), T::NAME, n));
